@@ -50,7 +50,15 @@ def _module(fn):
         fn = m.group(1)
     fn = fn.lstrip("<&' ")
     segs = [x for x in re.split(r"::", re.sub(r"<.*$", "", fn)) if x]
-    return "::".join(segs[:2])
+    if not m:
+        segs = segs[:-1]                       # the function itself
+    mods = []
+    for x in segs:
+        if x[:1].islower() or x[:1] == "_":
+            mods.append(x)
+        else:
+            break                             # a type: `a::b::T::f` lives in module a::b
+    return "::".join(mods[:2])
 
 
 def _commute(rest):
